@@ -249,6 +249,105 @@ theorem C19_useProxy (host : Str) (secure : Bool) (optHost : Str) (optPort : Nat
 
 /-! ### the tunnel -/
 
+theorem crlfLines_append (a b : Str) (h : '\r' ∉ a) :
+    Spec.NoProxy.crlfLines (a ++ '\r' :: '\n' :: b) = a :: Spec.NoProxy.crlfLines b := by
+  induction a with
+  | nil => simp [Spec.NoProxy.crlfLines]
+  | cons x xs ih =>
+    have hx : x ≠ '\r' := fun e => h (by simp [e])
+    have hxs : '\r' ∉ xs := fun e => h (by simp [e])
+    rw [List.cons_append, Spec.NoProxy.crlfLines]
+    · rw [ih hxs]; rfl
+    · intros; simp_all
+
+theorem splitOn_notin (c : Char) (s : Str) (h : c ∉ s) : splitOn c s = [s] := by
+  induction s with
+  | nil => rfl
+  | cons x xs ih =>
+    have hx : x ≠ c := fun e => h (by simp [e])
+    have hxs : c ∉ xs := fun e => h (by simp [e])
+    simp [splitOn, hx, ih hxs, consHead]
+
+theorem natStr_digits (n : Nat) : ∀ c ∈ natStr n, c.isDigit = true := by
+  intro c hc
+  unfold natStr at hc
+  rw [Nat.toList_repr] at hc
+  exact Nat.isDigit_of_mem_toDigits (by decide) (by decide) hc
+
+open WS.Model.Proxy in
+/-- **C19_connect_bytes** — for every host (without blank or CR), port and credentials, what
+    `_tunnel` writes reads back under the Spec's grammar as
+    `CONNECT host:port HTTP/1.1 CRLF Host: host:port CRLF [Proxy-Authorization: Basic b64 CRLF] CRLF`,
+    and the base64 text decodes to exactly `user[:password]`. -/
+theorem C19_connect_bytes (host : Str) (port : Nat) (auth : Option (Str × Str))
+    (hh : ∀ c ∈ host, c ≠ ' ' ∧ c ≠ '\r') :
+    Spec.NoProxy.parseConnect (tunnelRequest host port auth) =
+      some ⟨host ++ ':' :: natStr port, host ++ ':' :: natStr port,
+        (authStr? auth).map fun s => B64.encode (B64.asciiBytes s)⟩ ∧
+    ∀ s, authStr? auth = some s → B64.decode (B64.encode (B64.asciiBytes s)) = some (B64.asciiBytes s) := by
+  refine ⟨?_, fun s _ => WS.Lemmas.B64.decode_encode _⟩
+  unfold tunnelRequest
+  simp only []
+  have hhp : ∀ c ∈ host ++ ':' :: natStr port, c ≠ ' ' ∧ c ≠ '\r' := by
+    intro c hc
+    simp only [List.mem_append, List.mem_cons] at hc
+    rcases hc with hc | rfl | hc
+    · exact hh c hc
+    · decide
+    · have := natStr_digits port c hc
+      constructor <;> (intro e; subst e; simp [Char.isDigit] at this)
+  generalize host ++ ':' :: natStr port = hp at hhp ⊢
+  have hcr0 : '\r' ∉ "CONNECT ".toList ++ hp ++ " HTTP/1.1".toList := by
+    simp only [List.mem_append, not_or]
+    exact ⟨⟨by decide, fun h => (hhp _ h).2 rfl⟩, by decide⟩
+  have hcr1 : '\r' ∉ "Host: ".toList ++ hp := by
+    simp only [List.mem_append, not_or]
+    exact ⟨by decide, fun h => (hhp _ h).2 rfl⟩
+  have hsp : splitOn ' ' ("CONNECT ".toList ++ hp ++ " HTTP/1.1".toList) =
+      ["CONNECT".toList, hp, "HTTP/1.1".toList] := by
+    have e : "CONNECT ".toList ++ hp ++ " HTTP/1.1".toList =
+        "CONNECT".toList ++ ' ' :: (hp ++ ' ' :: "HTTP/1.1".toList) := by simp
+    rw [e, WS.Lemmas.Py.splitOn_append_sep, WS.Lemmas.Py.splitOn_append_sep,
+      splitOn_notin ' ' hp (fun h => (hhp _ h).1 rfl)]
+    have h1 : splitOn ' ' "CONNECT".toList = ["CONNECT".toList] := by decide
+    have h2 : splitOn ' ' "HTTP/1.1".toList = ["HTTP/1.1".toList] := by decide
+    rw [h1, h2]; rfl
+  have hpre : Spec.NoProxy.stripPrefix? "Host: ".toList ("Host: ".toList ++ hp) = some hp := by
+    simp [Spec.NoProxy.stripPrefix?]
+  cases ha : authStr? auth with
+  | none =>
+    simp only []
+    have e : "CONNECT ".toList ++ hp ++ " HTTP/1.1".toList ++ crlf ++ ("Host: ".toList ++ hp ++ crlf) ++ [] ++ crlf =
+        ("CONNECT ".toList ++ hp ++ " HTTP/1.1".toList) ++ '\r' :: '\n' ::
+          (("Host: ".toList ++ hp) ++ '\r' :: '\n' :: ([] ++ '\r' :: '\n' :: [])) := by
+      simp [crlf]
+    rw [e]
+    unfold Spec.NoProxy.parseConnect
+    rw [crlfLines_append _ _ hcr0, crlfLines_append _ _ hcr1, crlfLines_append [] [] (by simp)]
+    simp only [Spec.NoProxy.crlfLines, hsp, hpre, and_self, if_true, Option.map_none]
+  | some s =>
+    simp only []
+    have hcr2 : '\r' ∉ "Proxy-Authorization: Basic ".toList ++ B64.encode (B64.asciiBytes s) := by
+      simp only [List.mem_append, not_or]
+      exact ⟨by decide, fun h => (WS.Lemmas.B64.encode_safe _ _ h).1 rfl⟩
+    have e : "CONNECT ".toList ++ hp ++ " HTTP/1.1".toList ++ crlf ++ ("Host: ".toList ++ hp ++ crlf) ++
+          ("Proxy-Authorization: Basic ".toList ++ B64.encode (B64.asciiBytes s) ++ crlf) ++ crlf =
+        ("CONNECT ".toList ++ hp ++ " HTTP/1.1".toList) ++ '\r' :: '\n' ::
+          (("Host: ".toList ++ hp) ++ '\r' :: '\n' ::
+            (("Proxy-Authorization: Basic ".toList ++ B64.encode (B64.asciiBytes s)) ++ '\r' :: '\n' ::
+              ([] ++ '\r' :: '\n' :: []))) := by
+      simp [crlf]
+    rw [e]
+    unfold Spec.NoProxy.parseConnect
+    rw [crlfLines_append _ _ hcr0, crlfLines_append _ _ hcr1, crlfLines_append _ _ hcr2,
+      crlfLines_append [] [] (by simp)]
+    have hpre2 : Spec.NoProxy.stripPrefix? "Proxy-Authorization: Basic ".toList
+        ("Proxy-Authorization: Basic ".toList ++ B64.encode (B64.asciiBytes s)) =
+          some (B64.encode (B64.asciiBytes s)) := by
+      simp [Spec.NoProxy.stripPrefix?]
+    generalize "Proxy-Authorization: Basic ".toList ++ B64.encode (B64.asciiBytes s) = l2 at hpre2 ⊢
+    simp only [Spec.NoProxy.crlfLines, hsp, hpre, hpre2, and_self, if_true, Option.map_some]
+
 open WS.Model.Proxy in
 /-- generated fact (T): the status `_tunnel` waits for, and the port used when the proxy URL
     names none. -/
